@@ -221,6 +221,21 @@ SEEDS = [
     ("C19_a", "C19", "R-SIBLING-API"),
     ("C19_b", "C19", "R-ATOMIC"),
     ("C20_a", "C20", "R-SERDE-KINDS"),
+    # round 2
+    ("C03_c", "C03", "R-MATCH-ORDER"),
+    ("C04_c", "C04", "R-REPLACE-ATOMIC"),
+    ("C04_d", "C04", "R-ITER-ERR"),
+    ("C05_c", "C05", "R-NARROW"),
+    ("C05_d", "C05", "R-ENC"),
+    ("C06_c", "C06", "R-CONV-UNWRAP"),
+    ("C06_d", "C06", "R-SIGN-INDEX"),
+    ("C07_c", "C07", "R-REGS"),
+    ("C07_d", "C07", "R-UNWIND-ALL"),
+    ("C12_c", "C12", "R-SPAN"),
+    ("C12_d", "C12", "R-IP-SYNC"),
+    ("C14_c", "C14", "R-STALE-INDEX"),
+    ("C15_c", "C15", "R-BOUNDS-ORDER"),
+    ("C15_d", "C15", "R-WIDTH-UNITS"),
 ]
 
 
